@@ -25,6 +25,7 @@ FORMATS = {
     "WebVTT": ("pycaption/webvtt.py", "WebVTTWriter", "WebVTTReader"),
     "DFXP": ("pycaption/dfxp/base.py", "DFXPWriter", "DFXPReader"),
     "MicroDVD": ("pycaption/microdvd.py", "MicroDVDWriter", "MicroDVDReader"),
+    "SAMI": ("pycaption/sami.py", "SAMIWriter", "SAMIReader"),
 }
 SETS = {
     "plain": [(S, 2 * S, ["hello"]), (3 * S + 40000, 4 * S + 520000, ["two", "lines"]), (3600 * S, 3601 * S + 80000, ["bye"])],
@@ -65,7 +66,8 @@ class World:
         self.ctx = ctx
         self.F = Folder(ctx.index)
         self.F.object_classes = "*"
-        self.F.external_models = {"bs4.BeautifulSoup": Soup}
+        from ..core.samimodels import SAMI_MODELS
+        self.F.external_models = dict({"bs4.BeautifulSoup": Soup}, **SAMI_MODELS)
         self.n = 0
 
     def ev(self, text, **local):
@@ -108,7 +110,7 @@ class World:
         return cls, me
 
     def write(self, fmt, cs):
-        path, w, _ = FORMATS[fmt] if fmt in FORMATS else ("pycaption/sami.py", "SAMIWriter", None)
+        path, w, _ = FORMATS[fmt]
         cls, me = self._obj(path, w)
         self.n += 1
         return self.F.call_function(cls.find_method("write"), [cs], {}, self_value=me)
@@ -147,6 +149,9 @@ def explore(ctx, thorough):
         # text is compared white-space normalised, line breaks included (a cue split over layout groups comes back with a
         # line break between the groups; the line structure of single hops is C03's and C04's business)
         want = [(s, e, " ".join(visible_lines(ls))) for s, e, ls in caps]
+        if "SAMI" in (a, b):
+            # SAMI carries starts and non-final ends: the last cue of a language lasts four seconds
+            want[-1] = (want[-1][0], want[-1][0] + 4 * S, want[-1][2])
         case = {"caption_set": label, "chain": f"{a} -> {b}"}
         try:
             cs = W.caption_set(caps)
